@@ -36,7 +36,10 @@ const (
 )
 
 type vCluEnv struct {
-	tableGone   bool // the script let hbase:meta answer "no such table" at least once
+	onDial      func() // hook: runs once inside the next Dial
+	onProbe     func() // hook: runs once inside the next probe (QueueRPC)
+	zkLike      bool   // lookups succeed although the client is closed (ZooKeeper-based: hbase:meta, master)
+	tableGone   bool   // the script let hbase:meta answer "no such table" at least once
 	c           *client
 	made        map[string]int
 	clients     []*vCluRC
@@ -78,6 +81,10 @@ func (r *vCluRC) Dial(ctx context.Context) error {
 	verifJitter()
 	e := r.env
 	e.dials++
+	if f := e.onDial; f != nil {
+		e.onDial = nil
+		f()
+	}
 	if e.closed {
 		e.closedAt++
 	}
@@ -126,6 +133,10 @@ func (r *vCluRC) answer(c hrpc.Call) {
 
 func (r *vCluRC) QueueRPC(c hrpc.Call) {
 	r.env.probes++
+	if f := r.env.onProbe; f != nil {
+		r.env.onProbe = nil
+		f()
+	}
 	r.answer(c)
 }
 func (r *vCluRC) QueueBatch(ctx context.Context, cs []hrpc.Call) {
@@ -158,7 +169,11 @@ func vLookupRegion(c *client, ctx context.Context, table, key []byte) (hrpc.Regi
 	}
 	select {
 	case <-c.done:
-		return nil, "", ErrClientClosed
+		// a lookup through hbase:meta fails once the client is closed; locating hbase:meta or the
+		// master itself goes through ZooKeeper and does not notice (e.zkLike)
+		if !e.zkLike {
+			return nil, "", ErrClientClosed
+		}
 	default:
 	}
 	if ctx.Err() != nil {
@@ -356,6 +371,45 @@ func VerifTwoCallers() {
 	}
 	verifAssert(verifGoroutines() == 0, "no goroutine is left running or blocked")
 	verifReach("both-returned")
+}
+
+// VerifEvictedWhileEstablishing: a region is being re-established (a request waits for it) when
+// another caller's lookup discovers its successor (split / merge / re-creation): the region is
+// evicted from the cache and marked dead while its establisher is inside Dial or inside the
+// probe, which then succeeds. The evicted region's waiters are released all the same, and the
+// waiting request completes against the successor.
+func VerifEvictedWhileEstablishing() {
+	c, e := vCluSetup()
+	reg := vMkRegion(0, 1, nil, nil)
+	c.regions.put(reg)
+	reg.MarkUnavailable()
+	newer := vMkRegion(0, 7, nil, nil)
+	e.replacedFor[""], e.replaced = newer, newer // hbase:meta lists the successor from now on
+	evict := func() { c.regions.put(newer) }
+	if verifBool() {
+		e.onDial = evict
+	} else {
+		e.onProbe = evict
+	}
+	fin := make(chan struct{}, 1)
+	var r1 vUserResult
+	go vUserGet(c, context.Background(), "k", &r1, fin)
+	verifQuiesce()
+	verifAssert(!r1.done, "the request waits for the region")
+	go c.establishRegion(reg, "rs0:1")
+	<-fin
+	verifQuiesce()
+	sleepAndIncreaseBackoffOverride = nil
+	verifAssert(reg.Context().Err() != nil, "the region was evicted")
+	verifAssert(reg.AvailabilityChan() == nil, "the evicted region's waiters are released")
+	verifAssert(r1.done && r1.err == nil, "the waiting request completes against the successor")
+	for _, r := range vTreeContents(&c.regions) {
+		if r.Context().Err() == nil {
+			verifAssert(!r.IsUnavailable(), "no live cached region remains marked unavailable")
+		}
+	}
+	verifAssert(verifGoroutines() == 0, "no goroutine is left running or blocked")
+	verifReach("evicted")
 }
 
 // VerifRegionMoved (C04): the region moved to another server while hbase:meta still lists the
